@@ -122,11 +122,16 @@ def build(seed, tier):
         ops.append({'op': 'idle', 'seconds': ro.choice([0.05, 0.5])})
     # --- timer placement (1 event ~ 1 ms of virtual time)
     c = rc.random()
+    calibrate = None
     if finishing:
         natural = 560 + 2 * n_loop
         if c < 0.7:
             T = max(0.002, (natural + rc.randint(-40, 40)) / 1000.0)
             placement = 'near-natural-end'
+            # the exact instant is calibrated at run time: a first run of the same spec with the same schedule seed
+            # and no limit gives the virtual time at which the student thread would finish; the limit is then put a
+            # few events before that instant, i.e. inside the thread's own cleanup / just before its last lines
+            calibrate = rc.choice([0.001, 0.003, 0.006, 0.01, 0.015, 0.02, 0.03, 0.045, 0.07, -0.002])
         elif c < 0.85:
             T = rc.uniform(0.002, natural / 1000.0)
             placement = 'before-end'
@@ -161,6 +166,8 @@ def build(seed, tier):
             'sched': {'policy': policy, 'seed': rs.randint(1, 10 ** 9), 'params': params},
             'ref_prelude': None if finishing else LIB + (tail if entry != 'run' else ''),
             'meta': {'cls': cls, 'k': k, 'placement': placement, 'policy': policy, 'seed': seed}}
+    if calibrate is not None:
+        spec['calibrate'] = calibrate
     if tier == 'thorough' and rc.random() < 0.15:
         spec['instruction_level'] = ['_execute', '_execute_with_timeout', '_stop_mocking', '_stop_patches', '_start_patches',
                                      '_capture_exception', 'append_output', 'terminate', 'raise_exception', 'run', 'timeout']
@@ -375,6 +382,16 @@ def run_task(task):
 
     for sd in task['seeds']:
         spec = build(sd, task['tier'])
+        if spec.get('calibrate') is not None:
+            probe = dict(spec, allowed_time=60.0)
+            pres = world.fork_run(execute, probe, timeout=90)
+            out['runs'] += 1
+            done = (pres['sched'].get('thread_done_at') or {}).get(1)
+            joined = pres['sched']['probe'].get('first_timed_join_at')
+            delta = spec.pop('calibrate')
+            if done is not None and joined is not None and done - joined - delta > 0.002:
+                spec['allowed_time'] = round(done - joined - delta, 6)
+                spec['meta']['placement'] = 'calibrated-to-natural-end'
         res = world.fork_run(execute, spec, timeout=90)
         out['runs'] += 1
         out['virtual_s'] += res.get('virtual_s', 0.0)
@@ -419,7 +436,7 @@ def run_task(task):
             bump('clock_jumps', sc['clock_jumps'])
         if sc['async_sent'] and not sc['landings']:
             bump('probe:async_never_delivered')
-        if fired and spec['meta']['placement'] == 'near-natural-end':
+        if fired and spec['meta']['placement'] in ('near-natural-end', 'calibrated-to-natural-end'):
             bump('probe:timer_fired_near_natural_end')
         if sc['probe'].get('student_blocked'):
             bump('probe:student_thread_blocked_in_wait')
